@@ -277,7 +277,9 @@ pub fn build_api_model(cx: &mut Cx, nm: &mut Namer) -> A2lFile {
     }
     let n = cx.tape.draw(12);
     for _ in 0..n {
+        cx.tape.begin_group();
         let d = push_new(cx, nm, &mut file.project.module[0]);
+        cx.tape.end_group();
         cx.event(&format!("  build: {d}"));
     }
     if cx.tape.chance(1, 3) {
@@ -803,12 +805,18 @@ impl Scenario for C01Cycles {
         let mut env_kinds = String::new();
         let mut cycles_done = 0u64;
         let mut edits_total = 0u32;
+        cx.tape.begin_group();
         for cycle in 1..=k {
+            cx.tape.end_group();
+            cx.tape.begin_group();
             // ---- edits
             let mut edited = false;
             let nedits = if cycle == 1 && entry != 3 { cx.tape.draw(2) } else { *cx.tape.pick(&[0u64, 0, 1, 3]) };
             for _ in 0..nedits {
-                if let Some(desc) = apply_edit(cx, &mut nm, &mut model) {
+                cx.tape.begin_group();
+                let edit = apply_edit(cx, &mut nm, &mut model);
+                cx.tape.end_group();
+                if let Some(desc) = edit {
                     cx.event(&format!("cycle {cycle}: {desc}"));
                     edited = true;
                     edits_total += 1;
